@@ -2457,29 +2457,34 @@ fn generate_expression(
                 } else {
                     // Attempt to construct via aggregate parts
 
-                    // Get the number of elements to initialize recursively in a type
-                    fn get_member_count(id: ir::TypeId, module: &ir::Module) -> usize {
+                    // Get the types of the elements to initialize recursively in a type
+                    fn get_member_types(
+                        id: ir::TypeId,
+                        module: &ir::Module,
+                        output: &mut Vec<ir::TypeId>,
+                    ) {
                         let id = module.type_registry.remove_modifier(id);
                         let tyl = module.type_registry.get_type_layer(id);
                         match tyl {
                             ir::TypeLayer::Array(inner_id, Some(len)) => {
-                                get_member_count(inner_id, module) * len as usize
+                                for _ in 0..len {
+                                    get_member_types(inner_id, module, output);
+                                }
                             }
                             ir::TypeLayer::Array(_, None) => {
                                 panic!("Can not cast to unbounded array")
                             }
                             ir::TypeLayer::Struct(id) => {
                                 let sd = &module.struct_registry[id.0 as usize];
-                                let mut count = 0;
                                 for member in &sd.members {
-                                    count += get_member_count(member.type_id, module);
+                                    get_member_types(member.type_id, module, output);
                                 }
-                                count
                             }
-                            _ => 1,
+                            _ => output.push(id),
                         }
                     }
-                    let member_count = get_member_count(unmod_id, context.module);
+                    let mut member_types = Vec::new();
+                    get_member_types(unmod_id, context.module, &mut member_types);
 
                     let no_side_effects = match **expr {
                         ir::Expression::Literal(_)
@@ -2488,14 +2493,26 @@ fn generate_expression(
                         | ir::Expression::Global(_)
                         | ir::Expression::ConstantVariable(_)
                         | ir::Expression::EnumValue(_) => true,
-                        _ => member_count == 1,
+                        _ => member_types.len() == 1,
                     };
 
                     if no_side_effects {
                         let ty = generate_type_id(*type_id, context)?;
-                        let inits = (0..member_count)
-                            .map(|_| ast::Initializer::Expression(Located::none(inner.clone())))
-                            .collect();
+                        let mut inits = Vec::with_capacity(member_types.len());
+                        for member_type in member_types {
+                            // Each element is converted from the source value on its own
+                            // A conversion inside the braces can not be implicit when it narrows
+                            // and a vector would take one source value per component
+                            // A literal is left to convert implicitly as a constant may narrow
+                            let is_literal = matches!(**expr, ir::Expression::Literal(_));
+                            let element = if member_type == input_ty || is_literal {
+                                inner.clone()
+                            } else {
+                                let cast = ir::Expression::Cast(member_type, expr.clone());
+                                generate_expression(&cast, context)?
+                            };
+                            inits.push(ast::Initializer::Expression(Located::none(element)));
+                        }
                         ast::Expression::BracedInit(Box::new(ty), inits)
                     } else {
                         return Err(GenerateError::UnsupportedCast);
